@@ -12,7 +12,8 @@
      is `new_from_slice(&key[..]).unwrap()` on the whole key, and a providing type does not override
      `new_from_slice`.
  R4  Rc2::new_from_slice(key) is new_with_eff_key_len(key, 8 * key.len()).
-Padding equivalence (short CAST5/CAST6/Serpent keys vs. their padded form) is not decided here.
+ R6  padding equivalence (engine L3, analysis/c11_pad.py): a short CAST5 (> 80 bit) / CAST6 / Serpent key through
+     new_from_slice and its explicitly padded full-length form through `new` yield instances with identical terms.
 """
 import json, os
 from facts import *
@@ -36,7 +37,6 @@ def spec_for(r):
 
 def run(chk, facts_by_config):
     chk.trusted += ['crypto-common 0.2.0-rc.2 (analysed as MIR, not assumed)', 'core integer semantics as modelled in analysis/ops.py']
-    chk.undecided += ['padding equivalence of short CAST5 (>80 bit) / CAST6 / Serpent keys with their padded form (R6)']
     reviewed = load_reviewed()
     lens = ctor.lens_for_tier(chk.tier)
     res = ctor.run_all(facts_by_config, lens=lens)
@@ -116,6 +116,8 @@ def run(chk, facts_by_config):
                 chk.ok('R3-fixed-size', '%s|%s' % (cfgname, tyname), dict(type=tyname, key_size=ks))
         chk.floor('types', n_types, 'types.' + cfgname)
         rule_R3_R4(chk, cfgname, m)
+        import c11_pad
+        c11_pad.run_rule(chk, cfgname, m)
 
 
 def rule_R3_R4(chk, cfgname, m):
